@@ -295,6 +295,17 @@ for _c in ("Euler3D", "GillespieGraph"):
 for _c in ("Euler3D", "TauLeapGraph"):
     CASES.append(finalize_case(_c, False))
     CASES.append(finalize_case(_c, True))
+# thorough tier: the exported API over the four remaining classes as well
+for _c in ("EulerGraph", "TauLeap3D", "TauLeapGraph", "Gillespie3D"):
+    for _f in API_LIVE:
+        _k = api_case(_f, _c)
+        _k.thorough_only = True
+        CASES.append(_k)
+for _c in ("EulerGraph", "TauLeap3D", "Gillespie3D", "GillespieGraph"):
+    for _fr in (False, True):
+        _k = finalize_case(_c, _fr)
+        _k.thorough_only = True
+        CASES.append(_k)
 
 
 # The ABI precondition of the native entry points (buffer lengths, index ranges) is established by the Python seam:
